@@ -135,6 +135,13 @@ def run(ctx, chk):
             chk.missing('C12.O1', 'chrony query call site in the poll loop')
 
     client_entry_order(fb, chk)
+    # ---- O6 the instant that is *published* with a report's bound is the one the poller read before asking for that report:
+    # the writer takes as-of from the message, not from anything newer it can lay hands on (a shared "latest stamp", its own
+    # clock read) -- C08.A's statement, without which the ordering established above is lost between the two threads
+    from . import C08
+    n6 = common.import_obligations(ctx, chk, C08, 'C12', LEVEL, lambda o: o['rule'] == 'C08.A' and o['key'].startswith('advance:as-of-from-message'), 'C12.O6')
+    if not getattr(chk, '_nested', False):
+        chk.floor('C12.O6', 'synchronised paths of the writer checked for taking as-of from the message (imported)', n6, 1)
     # ---------------------------------------------------------------- O2 client
     cm = ClientModel(fb, chk, 'C12.O2')
     if cm.ok:
